@@ -286,6 +286,9 @@ func main() {
 	d1 := ev.Pick(r, 4, 5)
 	scs = append(scs, mc.Scenario{Name: "seq/one-digest", Space: fmt.Sprintf("all sequences of %d operations over 17 operations (6 valid uploads, 3 invalid uploads, 6 reads, FindMissing over all names, filler) on %s", d1, base), Bound: 0, ShardDepth: 2, Body: seqBody(base, d1, 1), Budget: time.Duration(ev.Pick(r, 120, 1200)) * time.Second})
 	d2 := ev.Pick(r, 3, 4)
+	ecg := base
+	ecg.ExistenceCache = true
+	scs = append(scs, mc.Scenario{Name: "seq/one-digest-existence-cache", Space: fmt.Sprintf("as seq/one-digest behind an existence_caching decorator keyed by the digest key format the wiring announces for the hierarchical local backend (a FindMissing under one name must not make the object present under another) on %s", ecg), Bound: 0, ShardDepth: 2, Body: seqBody(ecg, d1, 1), Budget: time.Duration(ev.Pick(r, 150, 1200)) * time.Second})
 	scs = append(scs, mc.Scenario{Name: "seq/two-digests", Space: fmt.Sprintf("all sequences of %d operations over 32 operations (two digests) on %s", d2, base), Bound: 0, ShardDepth: 2, Body: seqBody(base, d2, 2), Budget: time.Duration(ev.Pick(r, 60, 600)) * time.Second})
 	small := base
 	small.SectorsPerBlock, small.New, small.Old = 2, 1, 1
